@@ -1,26 +1,853 @@
 package main
 
+// P2: regular-language engine. Regexes (from the code or from the spec) are compiled with
+// regexp/syntax (the front end Go's matcher uses), determinised over an alphabet of rune
+// classes computed by running the real Inst.MatchRune on every code point, and combined.
+// Lemmas are decided by an SMT-checked inductive certificate over the product automaton.
+
+import (
+	"fmt"
+	"go/ast"
+	"go/parser"
+	"go/token"
+	"go/types"
+	"regexp/syntax"
+	"sort"
+	"strconv"
+	"strings"
+	"unicode"
+)
+
 type LangDef struct {
 	Name string
 	Text string
+	Expr ast.Expr
 	File string
 	Line int
-}
-type LemmaDef struct {
-	Name string
-	Text string
-	File string
-	Line int
+	Code bool // auto-registered from a code regex
 }
 
-func parseLangDef(text, file string, line int) (*LangDef, error)   { return &LangDef{Text: text, File: file, Line: line}, nil }
-func parseLemmaDef(text, file string, line int) (*LemmaDef, error) { return &LemmaDef{Text: text, File: file, Line: line}, nil }
+type LemmaDef struct {
+	Name   string
+	Kind   string // subset, disjoint, equal, nonempty
+	Args   []ast.Expr
+	Text   string
+	Serves []string
+	File   string
+	Line   int
+	Known  string // id of a known finding whose region is excluded in the statement
+}
+
+func parseLangDef(text, file string, line int) (*LangDef, error) {
+	i := strings.Index(text, "=")
+	if i < 0 {
+		return nil, fmt.Errorf("%s:%d: lang NAME = EXPR expected", file, line)
+	}
+	name := strings.TrimSpace(text[:i])
+	body := strings.TrimSpace(text[i+1:])
+	e, err := parser.ParseExpr(body)
+	if err != nil {
+		return nil, fmt.Errorf("%s:%d: %v", file, line, err)
+	}
+	return &LangDef{Name: name, Text: body, Expr: e, File: file, Line: line}, nil
+}
+
+func parseLemmaDef(text, file string, line int) (*LemmaDef, error) {
+	m := labelRe.FindStringSubmatch(text)
+	if m == nil {
+		return nil, fmt.Errorf("%s:%d: lemma NAME: STATEMENT expected", file, line)
+	}
+	lm := &LemmaDef{Name: m[1], Text: m[2], File: file, Line: line}
+	body := m[2]
+	// trailing "serves C11 C02"
+	if k := strings.Index(body, " serves "); k >= 0 {
+		lm.Serves = strings.Fields(body[k+8:])
+		body = strings.TrimSpace(body[:k])
+	}
+	e, err := parser.ParseExpr(body)
+	if err != nil {
+		return nil, fmt.Errorf("%s:%d: %v", file, line, err)
+	}
+	call, ok := e.(*ast.CallExpr)
+	if !ok {
+		return nil, fmt.Errorf("%s:%d: lemma statement must be subset(A,B), disjoint(A,B), equal(A,B) or nonempty(A)", file, line)
+	}
+	lm.Kind = call.Fun.(*ast.Ident).Name
+	lm.Args = call.Args
+	return lm, nil
+}
 
 func (p *Prog) registerCodeRegex(name, pattern string) {
 	p.rxMu.Lock()
 	defer p.rxMu.Unlock()
 	p.codeRegex[name] = pattern
 	if _, ok := p.spec.Langs[name]; !ok {
-		p.spec.Langs[name] = &LangDef{Name: name, Text: pattern}
+		p.spec.Langs[name] = &LangDef{Name: name, Text: "code:" + pattern, Code: true}
 	}
+}
+
+// ---------------------------------------------------------------------------
+// alphabet
+
+type leafRegex struct {
+	pattern string
+	prog    *syntax.Prog
+	runeIns []int // indices of rune-consuming instructions
+}
+
+func compileLeaf(pattern string) (*leafRegex, error) {
+	re, err := syntax.Parse(pattern, syntax.Perl)
+	if err != nil {
+		return nil, err
+	}
+	prog, err := syntax.Compile(re.Simplify())
+	if err != nil {
+		return nil, err
+	}
+	l := &leafRegex{pattern: pattern, prog: prog}
+	for i, in := range prog.Inst {
+		switch in.Op {
+		case syntax.InstRune, syntax.InstRune1, syntax.InstRuneAny, syntax.InstRuneAnyNotNL:
+			l.runeIns = append(l.runeIns, i)
+		case syntax.InstEmptyWidth:
+			if syntax.EmptyOp(in.Arg)&(syntax.EmptyWordBoundary|syntax.EmptyNoWordBoundary) != 0 {
+				return nil, fmt.Errorf("word boundaries are not supported in %q", pattern)
+			}
+		}
+	}
+	return l, nil
+}
+
+type Alphabet struct {
+	reps    []rune       // representative of each class
+	bounds  []rune       // sorted interval starts
+	classAt []int        // class of the interval starting at bounds[i]
+	lower   []int        // class of ToLower(rep)
+	nlClass int
+	surr    int // class of the surrogate code points, which never occur in decoded text
+}
+
+func (a *Alphabet) classOf(r rune) int {
+	i := sort.Search(len(a.bounds), func(i int) bool { return a.bounds[i] > r }) - 1
+	return a.classAt[i]
+}
+
+// buildAlphabet partitions all code points by the behaviour of every rune instruction of the
+// leaves, on the rune itself and on its lower-case image.
+func buildAlphabet(leaves []*leafRegex, extraSingles []rune, needLower bool) *Alphabet {
+	type instRef struct {
+		in *syntax.Inst
+	}
+	var ins []instRef
+	for _, l := range leaves {
+		for _, i := range l.runeIns {
+			ins = append(ins, instRef{&l.prog.Inst[i]})
+		}
+	}
+	sigOf := func(r rune) string {
+		var b strings.Builder
+		for _, ir := range ins {
+			if ir.in.MatchRune(r) {
+				b.WriteByte('1')
+			} else {
+				b.WriteByte('0')
+			}
+		}
+		return b.String()
+	}
+	single := map[rune]bool{'\n': true}
+	for _, r := range extraSingles {
+		single[r] = true
+	}
+	a := &Alphabet{}
+	sigClass := map[string]int{}
+	prev := ""
+	first := true
+	for r := rune(0); r <= unicode.MaxRune; r++ {
+		s := sigOf(r)
+		if needLower {
+			lr := unicode.ToLower(r)
+			if lr != r {
+				s += "|" + sigOf(lr) + "|L"
+			} else {
+				s += "|" + s + "|"
+			}
+		}
+		if single[r] {
+			s += fmt.Sprintf("#%d", r)
+		}
+		if r >= 0xD800 && r <= 0xDFFF {
+			s = "#surrogate"
+		}
+		if first || s != prev {
+			c, ok := sigClass[s]
+			if !ok {
+				c = len(a.reps)
+				sigClass[s] = c
+				a.reps = append(a.reps, r)
+			}
+			a.bounds = append(a.bounds, r)
+			a.classAt = append(a.classAt, c)
+			prev = s
+			first = false
+		}
+	}
+	if needLower {
+		// class of the lower-case image; the signature guarantees it is uniform per class
+		a.lower = make([]int, len(a.reps))
+		for c, r := range a.reps {
+			a.lower[c] = a.classOf(unicode.ToLower(r))
+		}
+	}
+	a.nlClass = a.classOf('\n')
+	a.surr = a.classOf(0xD800)
+	return a
+}
+
+// ---------------------------------------------------------------------------
+// DFA
+
+type DFA struct {
+	init  int
+	acc   []bool
+	delta [][]int32 // state x class
+}
+
+func (d *DFA) n() int { return len(d.acc) }
+
+// leafDFA determinises "MatchString(pattern, s)" over the alphabet.
+func leafDFA(l *leafRegex, a *Alphabet) *DFA {
+	prog := l.prog
+	type key string
+	// a DFA state: sorted set of pending pcs + flags (first, prevNL) ; special sink "matched"
+	type dstate struct {
+		pcs    []uint32
+		first  bool
+		prevNL bool
+	}
+	enc := func(s dstate) key {
+		var b strings.Builder
+		if s.first {
+			b.WriteByte('F')
+		}
+		if s.prevNL {
+			b.WriteByte('N')
+		}
+		for _, pc := range s.pcs {
+			b.WriteString(strconv.Itoa(int(pc)))
+			b.WriteByte(',')
+		}
+		return key(b.String())
+	}
+	// closure follows Alt/Nop/Capture/EmptyWidth given context; returns rune-inst pcs and whether Match reached
+	closure := func(pcs []uint32, first, prevNL, atEnd bool, nextNL bool) ([]uint32, bool) {
+		seen := map[uint32]bool{}
+		var out []uint32
+		matched := false
+		var stack []uint32
+		stack = append(stack, pcs...)
+		for len(stack) > 0 {
+			pc := stack[len(stack)-1]
+			stack = stack[:len(stack)-1]
+			if seen[pc] {
+				continue
+			}
+			seen[pc] = true
+			in := &prog.Inst[pc]
+			switch in.Op {
+			case syntax.InstAlt, syntax.InstAltMatch:
+				stack = append(stack, in.Out, in.Arg)
+			case syntax.InstNop, syntax.InstCapture:
+				stack = append(stack, in.Out)
+			case syntax.InstEmptyWidth:
+				op := syntax.EmptyOp(in.Arg)
+				ok := true
+				if op&syntax.EmptyBeginText != 0 && !first {
+					ok = false
+				}
+				if op&syntax.EmptyBeginLine != 0 && !(first || prevNL) {
+					ok = false
+				}
+				if op&syntax.EmptyEndText != 0 && !atEnd {
+					ok = false
+				}
+				if op&syntax.EmptyEndLine != 0 && !(atEnd || nextNL) {
+					ok = false
+				}
+				if ok {
+					stack = append(stack, in.Out)
+				}
+			case syntax.InstMatch:
+				matched = true
+			case syntax.InstFail:
+			default:
+				out = append(out, pc)
+			}
+		}
+		sort.Slice(out, func(i, j int) bool { return out[i] < out[j] })
+		return out, matched
+	}
+	d := &DFA{}
+	index := map[key]int{}
+	var states []dstate
+	add := func(s dstate) int {
+		k := enc(s)
+		if i, ok := index[k]; ok {
+			return i
+		}
+		i := len(states)
+		index[k] = i
+		states = append(states, s)
+		d.acc = append(d.acc, false)
+		d.delta = append(d.delta, make([]int32, len(a.reps)))
+		return i
+	}
+	const sinkKey = key("MATCHED")
+	sink := -1
+	getSink := func() int {
+		if sink >= 0 {
+			return sink
+		}
+		sink = len(states)
+		index[sinkKey] = sink
+		states = append(states, dstate{})
+		d.acc = append(d.acc, true)
+		row := make([]int32, len(a.reps))
+		for c := range row {
+			row[c] = int32(sink)
+		}
+		d.delta = append(d.delta, row)
+		return sink
+	}
+	start := uint32(prog.Start)
+	d.init = add(dstate{pcs: []uint32{start}, first: true})
+	for i := 0; i < len(states); i++ {
+		if i == sink {
+			continue
+		}
+		s := states[i]
+		// acceptance at end of text
+		_, m := closure(s.pcs, s.first, s.prevNL, true, false)
+		d.acc[i] = m
+		for c, rep := range a.reps {
+			isNL := c == a.nlClass && rep == '\n'
+			runePcs, matched := closure(s.pcs, s.first, s.prevNL, false, isNL)
+			if matched {
+				d.delta[i][c] = int32(getSink())
+				continue
+			}
+			var next []uint32
+			for _, pc := range runePcs {
+				in := &prog.Inst[pc]
+				if in.MatchRune(rep) {
+					next = append(next, in.Out)
+				}
+			}
+			// unanchored search: a new attempt may start at the next position
+			next = append(next, start)
+			sort.Slice(next, func(x, y int) bool { return next[x] < next[y] })
+			next = dedupU32(next)
+			d.delta[i][c] = int32(add(dstate{pcs: next, prevNL: isNL}))
+		}
+	}
+	return minimize(d)
+}
+
+func dedupU32(xs []uint32) []uint32 {
+	out := xs[:0]
+	for i, x := range xs {
+		if i == 0 || x != xs[i-1] {
+			out = append(out, x)
+		}
+	}
+	return out
+}
+
+// minimize: Moore partition refinement (keeps DFAs small for the certificates).
+func minimize(d *DFA) *DFA {
+	n := d.n()
+	k := len(d.delta[0])
+	// remove unreachable
+	reach := make([]bool, n)
+	stack := []int{d.init}
+	reach[d.init] = true
+	for len(stack) > 0 {
+		q := stack[len(stack)-1]
+		stack = stack[:len(stack)-1]
+		for c := 0; c < k; c++ {
+			t := int(d.delta[q][c])
+			if !reach[t] {
+				reach[t] = true
+				stack = append(stack, t)
+			}
+		}
+	}
+	part := make([]int, n)
+	for q := 0; q < n; q++ {
+		if d.acc[q] {
+			part[q] = 1
+		}
+	}
+	for {
+		sig := map[string]int{}
+		np := make([]int, n)
+		for q := 0; q < n; q++ {
+			if !reach[q] {
+				continue
+			}
+			var b strings.Builder
+			b.WriteString(strconv.Itoa(part[q]))
+			for c := 0; c < k; c++ {
+				b.WriteByte(',')
+				b.WriteString(strconv.Itoa(part[d.delta[q][c]]))
+			}
+			s := b.String()
+			id, ok := sig[s]
+			if !ok {
+				id = len(sig)
+				sig[s] = id
+			}
+			np[q] = id
+		}
+		same := true
+		cnt := map[int]bool{}
+		for q := 0; q < n; q++ {
+			if reach[q] {
+				cnt[part[q]] = true
+			}
+		}
+		if len(sig) != len(cnt) {
+			same = false
+		}
+		part = np
+		if same {
+			break
+		}
+	}
+	m := 0
+	for q := 0; q < n; q++ {
+		if reach[q] && part[q]+1 > m {
+			m = part[q] + 1
+		}
+	}
+	out := &DFA{init: part[d.init], acc: make([]bool, m), delta: make([][]int32, m)}
+	for q := 0; q < n; q++ {
+		if !reach[q] {
+			continue
+		}
+		pq := part[q]
+		if out.delta[pq] != nil {
+			continue
+		}
+		out.acc[pq] = d.acc[q]
+		out.delta[pq] = make([]int32, k)
+		for c := 0; c < k; c++ {
+			out.delta[pq][c] = int32(part[d.delta[q][c]])
+		}
+	}
+	return out
+}
+
+func complement(d *DFA) *DFA {
+	o := &DFA{init: d.init, acc: make([]bool, d.n()), delta: d.delta}
+	for i, a := range d.acc {
+		o.acc[i] = !a
+	}
+	return o
+}
+
+func product(a, b *DFA, f func(x, y bool) bool) *DFA {
+	k := len(a.delta[0])
+	type pair struct{ x, y int }
+	idx := map[pair]int{}
+	var ps []pair
+	add := func(p pair) int {
+		if i, ok := idx[p]; ok {
+			return i
+		}
+		idx[p] = len(ps)
+		ps = append(ps, p)
+		return len(ps) - 1
+	}
+	d := &DFA{}
+	d.init = add(pair{a.init, b.init})
+	for i := 0; i < len(ps); i++ {
+		p := ps[i]
+		d.acc = append(d.acc, f(a.acc[p.x], b.acc[p.y]))
+		row := make([]int32, k)
+		for c := 0; c < k; c++ {
+			row[c] = int32(add(pair{int(a.delta[p.x][c]), int(b.delta[p.y][c])}))
+		}
+		d.delta = append(d.delta, row)
+	}
+	return minimize(d)
+}
+
+// concatDFA: L(a)·L(b) by subset construction over (state of a, set of states of b).
+func concatDFA(a, b *DFA) *DFA {
+	k := len(a.delta[0])
+	type st struct {
+		x  int
+		ys string
+	}
+	encSet := func(s []int) string {
+		sort.Ints(s)
+		var bld strings.Builder
+		last := -1
+		for _, v := range s {
+			if v != last {
+				bld.WriteString(strconv.Itoa(v))
+				bld.WriteByte(',')
+				last = v
+			}
+		}
+		return bld.String()
+	}
+	decSet := func(s string) []int {
+		var out []int
+		for _, f := range strings.Split(s, ",") {
+			if f != "" {
+				v, _ := strconv.Atoi(f)
+				out = append(out, v)
+			}
+		}
+		return out
+	}
+	idx := map[st]int{}
+	var ss []st
+	add := func(x int, ys []int) int {
+		if a.acc[x] {
+			ys = append(ys, b.init)
+		}
+		s := st{x, encSet(ys)}
+		if i, ok := idx[s]; ok {
+			return i
+		}
+		idx[s] = len(ss)
+		ss = append(ss, s)
+		return len(ss) - 1
+	}
+	d := &DFA{}
+	d.init = add(a.init, nil)
+	for i := 0; i < len(ss); i++ {
+		s := ss[i]
+		ys := decSet(s.ys)
+		acc := false
+		for _, y := range ys {
+			if b.acc[y] {
+				acc = true
+			}
+		}
+		d.acc = append(d.acc, acc)
+		row := make([]int32, k)
+		for c := 0; c < k; c++ {
+			var ny []int
+			for _, y := range ys {
+				ny = append(ny, int(b.delta[y][c]))
+			}
+			row[c] = int32(add(int(a.delta[s.x][c]), ny))
+		}
+		d.delta = append(d.delta, row)
+	}
+	return minimize(d)
+}
+
+// prefixesDFA accepts every prefix of a string of L(a).
+func prefixesDFA(a *DFA) *DFA {
+	n := a.n()
+	k := len(a.delta[0])
+	can := make([]bool, n)
+	copy(can, a.acc)
+	for changed := true; changed; {
+		changed = false
+		for q := 0; q < n; q++ {
+			if can[q] {
+				continue
+			}
+			for c := 0; c < k; c++ {
+				if can[a.delta[q][c]] {
+					can[q] = true
+					changed = true
+					break
+				}
+			}
+		}
+	}
+	return minimize(&DFA{init: a.init, acc: can, delta: a.delta})
+}
+
+// lowerPreimage accepts s iff ToLower(s) (rune-wise) is accepted by a.
+func lowerPreimage(a *DFA, al *Alphabet) *DFA {
+	d := &DFA{init: a.init, acc: a.acc, delta: make([][]int32, a.n())}
+	for q := range a.delta {
+		row := make([]int32, len(a.delta[q]))
+		for c := range row {
+			row[c] = a.delta[q][al.lower[c]]
+		}
+		d.delta[q] = row
+	}
+	return minimize(d)
+}
+
+// shortest returns a shortest accepted string as class indices, or nil,false if the language is empty.
+func (d *DFA) shortest() ([]int, bool) {
+	n := d.n()
+	prev := make([]int, n)
+	pc := make([]int, n)
+	for i := range prev {
+		prev[i] = -2
+	}
+	prev[d.init] = -1
+	q := []int{d.init}
+	for len(q) > 0 {
+		s := q[0]
+		q = q[1:]
+		if d.acc[s] {
+			var out []int
+			for t := s; prev[t] != -1; t = prev[t] {
+				out = append([]int{pc[t]}, out...)
+			}
+			return out, true
+		}
+		for c, t := range d.delta[s] {
+			if prev[t] == -2 {
+				prev[t] = s
+				pc[t] = c
+				q = append(q, int(t))
+			}
+		}
+	}
+	return nil, false
+}
+
+// ---------------------------------------------------------------------------
+// language expressions
+
+type langEnv struct {
+	p      *Prog
+	al     *Alphabet
+	leaves map[string]*leafRegex
+	cache  map[string]*DFA
+	stack  map[string]bool
+}
+
+// collectLeaves gathers the regex patterns an expression depends on.
+func (p *Prog) collectLeaves(e ast.Expr, out map[string]bool, needLower *bool, seen map[string]bool) error {
+	switch x := e.(type) {
+	case *ast.Ident:
+		if seen[x.Name] {
+			return nil
+		}
+		seen[x.Name] = true
+		ld, ok := p.spec.Langs[x.Name]
+		if !ok {
+			// a code regex not yet registered: re_<var>
+			if strings.HasPrefix(x.Name, "re_") {
+				pat, err := p.codeRegexPattern(strings.TrimPrefix(x.Name, "re_"))
+				if err != nil {
+					return err
+				}
+				p.registerCodeRegex(x.Name, pat)
+				out[pat] = true
+				return nil
+			}
+			return fmt.Errorf("unknown language %s", x.Name)
+		}
+		if ld.Code {
+			out[p.codeRegex[x.Name]] = true
+			return nil
+		}
+		return p.collectLeaves(ld.Expr, out, needLower, seen)
+	case *ast.CallExpr:
+		fn := x.Fun.(*ast.Ident).Name
+		switch fn {
+		case "regex":
+			s, err := litString(x.Args[0])
+			if err != nil {
+				return err
+			}
+			out[s] = true
+			return nil
+		case "lit":
+			s, err := litString(x.Args[0])
+			if err != nil {
+				return err
+			}
+			out["^(?s:"+regexpQuote(s)+")$"] = true
+			return nil
+		case "lowerpre":
+			*needLower = true
+		}
+		for _, a := range x.Args {
+			if err := p.collectLeaves(a, out, needLower, seen); err != nil {
+				return err
+			}
+		}
+		return nil
+	case *ast.ParenExpr:
+		return p.collectLeaves(x.X, out, needLower, seen)
+	}
+	return fmt.Errorf("bad language expression")
+}
+
+func regexpQuote(s string) string {
+	var b strings.Builder
+	for _, r := range s {
+		if r < 0x80 && !(r >= 'a' && r <= 'z' || r >= 'A' && r <= 'Z' || r >= '0' && r <= '9') {
+			fmt.Fprintf(&b, "\\x%02x", r)
+		} else {
+			b.WriteRune(r)
+		}
+	}
+	return b.String()
+}
+
+func litString(e ast.Expr) (string, error) {
+	switch x := e.(type) {
+	case *ast.BasicLit:
+		if x.Kind == token.STRING {
+			return strconv.Unquote(x.Value)
+		}
+	case *ast.BinaryExpr:
+		if x.Op == token.ADD {
+			a, err := litString(x.X)
+			if err != nil {
+				return "", err
+			}
+			b, err := litString(x.Y)
+			if err != nil {
+				return "", err
+			}
+			return a + b, nil
+		}
+	case *ast.ParenExpr:
+		return litString(x.X)
+	}
+	return "", fmt.Errorf("string literal expected")
+}
+
+func (le *langEnv) dfa(e ast.Expr) (*DFA, error) {
+	switch x := e.(type) {
+	case *ast.ParenExpr:
+		return le.dfa(x.X)
+	case *ast.Ident:
+		if d, ok := le.cache[x.Name]; ok {
+			return d, nil
+		}
+		if le.stack[x.Name] {
+			return nil, fmt.Errorf("recursive language %s", x.Name)
+		}
+		ld, ok := le.p.spec.Langs[x.Name]
+		if !ok {
+			return nil, fmt.Errorf("unknown language %s", x.Name)
+		}
+		var d *DFA
+		var err error
+		if ld.Code {
+			d = leafDFA(le.leaves[le.p.codeRegex[x.Name]], le.al)
+		} else {
+			le.stack[x.Name] = true
+			d, err = le.dfa(ld.Expr)
+			delete(le.stack, x.Name)
+			if err != nil {
+				return nil, err
+			}
+		}
+		le.cache[x.Name] = d
+		return d, nil
+	case *ast.CallExpr:
+		fn := x.Fun.(*ast.Ident).Name
+		var args []*DFA
+		if fn != "regex" && fn != "lit" {
+			for _, a := range x.Args {
+				d, err := le.dfa(a)
+				if err != nil {
+					return nil, err
+				}
+				args = append(args, d)
+			}
+		}
+		switch fn {
+		case "regex":
+			s, _ := litString(x.Args[0])
+			key := "regex:" + s
+			if d, ok := le.cache[key]; ok {
+				return d, nil
+			}
+			d := leafDFA(le.leaves[s], le.al)
+			le.cache[key] = d
+			return d, nil
+		case "lit":
+			s, _ := litString(x.Args[0])
+			pat := "^(?s:" + regexpQuote(s) + ")$"
+			key := "regex:" + pat
+			if d, ok := le.cache[key]; ok {
+				return d, nil
+			}
+			d := leafDFA(le.leaves[pat], le.al)
+			le.cache[key] = d
+			return d, nil
+		case "and":
+			d := args[0]
+			for _, o := range args[1:] {
+				d = product(d, o, func(a, b bool) bool { return a && b })
+			}
+			return d, nil
+		case "or":
+			d := args[0]
+			for _, o := range args[1:] {
+				d = product(d, o, func(a, b bool) bool { return a || b })
+			}
+			return d, nil
+		case "minus":
+			return product(args[0], args[1], func(a, b bool) bool { return a && !b }), nil
+		case "not":
+			return complement(args[0]), nil
+		case "concat":
+			d := args[0]
+			for _, o := range args[1:] {
+				d = concatDFA(d, o)
+			}
+			return d, nil
+		case "prefixes":
+			return prefixesDFA(args[0]), nil
+		case "lowerpre":
+			return lowerPreimage(args[0], le.al), nil
+		}
+		return nil, fmt.Errorf("unknown language operator %s", fn)
+	}
+	return nil, fmt.Errorf("bad language expression")
+}
+
+// codeRegexPattern finds the constant pattern of a package-level regexp variable of the repo.
+func (p *Prog) codeRegexPattern(varName string) (string, error) {
+	for _, pk := range p.pkgs {
+		obj := pk.Types.Scope().Lookup(varName)
+		if obj == nil {
+			continue
+		}
+		fx := &FuncCtx{prog: p, pkg: pk, counts: map[string]int{}, trusted: map[string]bool{}, langsUsed: map[string]bool{}, specUsed: map[string]bool{}}
+		var v Val
+		var err error
+		func() {
+			defer func() {
+				if r := recover(); r != nil {
+					err = fmt.Errorf("%v", r)
+				}
+			}()
+			vo, ok := obj.(*types.Var)
+			if !ok {
+				panic(unsupported{varName + " is not a variable"})
+			}
+			v = fx.globalVal(vo, nil)
+		}()
+		if err != nil {
+			return "", err
+		}
+		if rv, ok := v.(VRegex); ok {
+			return rv.Pattern, nil
+		}
+		return "", fmt.Errorf("%s is not a regexp compiled from a constant", varName)
+	}
+	return "", fmt.Errorf("regexp variable %s not found in the repository", varName)
 }
